@@ -1,6 +1,7 @@
 (* C12, part 2: every line the schema compiler emits is recognised as one rule.
    - character set of sanitised rule names WITHOUT the no-capital hypothesis ([A-Za-z0-9_]);
-   - the field-line prefix  name ::= (quoted field name) (quoted ::) ws  from the initial state;
+   - the field-line prefix  name ::= (quoted ESCAPED field name) (quoted ::) ws  from the initial state: the literal is
+     read back as the field name itself for every name (repo 481c8b3; no quote/backslash restriction any more);
    - `pat_good p`: the right-hand side p completes the rule, adds no reference and no empty alternative;
      proved for every fragment the _compile_* functions return except REGEX (fixed fragments by computation
      with the rule name / field name kept symbolic, CONST and ENUM by induction over the escaped text);
@@ -109,17 +110,18 @@ Definition S_pat (nm fn : str) : pst :=
 Definition fl_a : str := [32;58;58;61;32;34].
 Definition fl_b : str := [34;32;34;58;58;34;32;119;115;32].
 
-Lemma field_prefix n fn : name_ok n = true -> forallb plainc fn = true ->
-  runf init (n ++ fl_a ++ fn ++ fl_b) = S_pat n fn.
+(* the field name goes through _escape_literal (repo 481c8b3): read back as itself, for EVERY name *)
+Lemma field_prefix n fn : name_ok n = true ->
+  runf init (n ++ fl_a ++ flat_map gesc fn ++ fl_b) = S_pat n fn.
 Proof.
-  intros Hn Hf. destruct n as [|c n]; [discriminate|].
+  intros Hn. destruct n as [|c n]; [discriminate|].
   unfold name_ok in Hn. cbn [is_nil negb andb forallb] in Hn. apply andb_true_iff in Hn as [Hc Hn].
   rewrite <- app_comm_cons, run_cons. change init with (top []). rewrite step_top_alnum by exact Hc.
   rewrite run_app, run_rulename by (apply alnum_all_wordc; exact Hn).
   rewrite run_app.
   replace (runf (mkP MRuleName [] frame0 [] ([c] ++ n) false [] []) fl_a)
     with (mkP MLit (c :: n) frame0 [] [] false [] []) by (vm_compute; reflexivity).
-  rewrite run_app, run_lit_plain by exact Hf.
+  rewrite run_app, run_lit_esc.
   vm_compute. reflexivity.
 Qed.
 
@@ -260,14 +262,14 @@ Qed.
 
 (* ---- a whole field line ----------------------------------------------------------------------------------- *)
 Lemma field_line_split f :
-  field_line f ++ [c_nl] = (rule_name_of f ++ fl_a ++ fd_name f ++ fl_b) ++ (pattern_of f ++ [c_nl]).
-Proof. unfold field_line. fold fl_a fl_b. rewrite <- !app_assoc. reflexivity. Qed.
+  field_line f ++ [c_nl] = (rule_name_of f ++ fl_a ++ flat_map gesc (fd_name f) ++ fl_b) ++ (pattern_of f ++ [c_nl]).
+Proof. rewrite field_line_eq, escape_literal_spec. fold fl_a fl_b. rewrite <- !app_assoc. reflexivity. Qed.
 
 Lemma field_ok_nonregex allowed f :
-  name_ok (rule_name_of f) = true -> forallb plainc (fd_name f) = true -> str_in n_ws allowed = true ->
+  name_ok (rule_name_of f) = true -> str_in n_ws allowed = true ->
   pat_good (pattern_of f) -> regex_field_ok allowed f = true.
 Proof.
-  intros Hn Hf Hw Hp. destruct (Hp (rule_name_of f) (fd_name f)) as (its & E & Hrf & Hne).
+  intros Hn Hw Hp. destruct (Hp (rule_name_of f) (fd_name f)) as (its & E & Hrf & Hne).
   unfold regex_field_ok, line_rule. rewrite field_line_split, run_app, field_prefix, E by assumption.
   cbn [is_top_fresh top p_mode p_name p_top p_stack p_acc p_neg p_cls p_rules frame0 f_done f_cur is_nil negb andb].
   cbn [r_name r_alts]. rewrite str_eqb_refl. cbn [andb].
@@ -286,14 +288,15 @@ Record safe_parts (s : schema) (env : bool) : Prop := mkSafe {
   sp_us : existsb (memb c_us) (rule_names s) = false;
   sp_nodup : nodupb (rule_names s) = true;
   sp_struct : existsb (fun n => str_in n (struct_names env)) (rule_names s) = false;
-  sp_fname : forallb (fun f => lit_plain (fd_name f)) (sc_fields s) = true;
-  sp_sname : comment_safe (sc_name s) && (negb env || lit_plain (py_upper (sc_name s) (sc_upper s))) = true;
+  sp_fname : forallb (fun f => no_nul (fd_name f)) (sc_fields s) = true;
+  sp_sname : comment_safe (sc_name s) && (negb env || no_nul (py_upper (sc_name s) (sc_upper s))) = true;
   sp_regex : forallb (fun f => negb (is_regex_field f) || regex_field_ok (rule_names s ++ struct_names env) f) (sc_fields s) = true;
   sp_scope : forallb (fun f => match picked f with Some c => cst_scope_ok c | None => true end) (sc_fields s) = true }.
 
 Lemma safe_schema_parts s env : safe_schema s env = true -> safe_parts s env.
 Proof.
-  unfold safe_schema, schema_clauses. intro H. apply N.eqb_eq in H.
+  unfold safe_schema, schema_clauses. rewrite pin_field_name_escaped, pin_schema_name_escaped. cbn [name_lit_ok].
+  intro H. apply N.eqb_eq in H.
   repeat (apply N.eq_add_0 in H; let H' := fresh "B" in destruct H as [H H']).
   apply bit_zero in H, B, B0, B1, B2, B3, B4.
   apply negb_false_iff in B, B0, B1, B2, B4.
@@ -316,15 +319,13 @@ Qed.
 Theorem all_fields_ok s env : safe_schema s env = true ->
   forallb (regex_field_ok (rule_names s ++ struct_names env)) (sc_fields s) = true.
 Proof.
-  intro H. destruct (safe_schema_parts _ _ H) as [Hus _ _ Hfn _ Hre Hsc].
+  intro H. destruct (safe_schema_parts _ _ H) as [Hus _ _ _ _ Hre Hsc].
   apply forallb_forall. intros f Hf.
   pose proof (proj1 (forallb_forall _ _) Hre f Hf) as R1.
-  pose proof (proj1 (forallb_forall _ _) Hsc f Hf) as R2.
-  pose proof (proj1 (forallb_forall _ _) Hfn f Hf) as R3. cbn beta in R1, R2, R3.
+  pose proof (proj1 (forallb_forall _ _) Hsc f Hf) as R2. cbn beta in R1, R2.
   destruct (is_regex_field f) eqn:Er; [exact R1|].
   apply field_ok_nonregex.
   - apply rule_name_ok. apply (existsb_false_forall _ _ Hus). unfold rule_names. apply in_map. exact Hf.
-  - apply lit_plain_plainc. exact R3.
   - apply ws_in_struct.
   - apply good_pattern; assumption.
 Qed.
